@@ -676,8 +676,9 @@ def to_matched_score(
         sn, n = note_pairs[int(i)]
         sn_on, sn_off = [sn["onset_beat"], sn["onset_beat"] + sn["duration_beat"]]
         sn_dur = sn_off - sn_on
-        # hack for notes with negative durations
-        n_dur = max(n["duration_sec"], 60 / 200 * 0.25)
+        # hack for notes with negative (or no) duration; short notes keep
+        # the duration they were played with
+        n_dur = n["duration_sec"] if n["duration_sec"] > 0 else 60 / 200 * 0.25
         pair_info = (sn_on, sn_dur, sn["pitch"], n["onset_sec"], n_dur, n["velocity"])
         if include_score_markings:
             pair_info += (sn["voice"].item(),)
